@@ -13,7 +13,7 @@ Lemma run_body_stack_exact rq m stmts : (forall g k, no_fuel (snd (rq g k)) -> s
   forall g menv, no_fuel (snd (run_body rq m stmts g menv)) -> stack (fst (run_body rq m stmts g menv)) = stack g.
 Proof.
   intros H. induction stmts as [|s r IH]; intros g menv; [reflexivity|].
-  destruct s as [x v|f m2| |]; cbn [run_body].
+  destruct s as [x v|f m2| | |f m2 x0]; cbn [run_body].
   - apply IH.
   - pose proof (H g m2) as K. destruct (rq g m2) as [g' [menv2|e|]]; cbn [fst snd] in *.
     + intros N. rewrite IH by exact N. apply K. exact I.
@@ -21,6 +21,10 @@ Proof.
     + intros [].
   - reflexivity.
   - intros N. rewrite IH by exact N. reflexivity.
+  - pose proof (H g m2) as K. destruct (rq g m2) as [g' [menv2|e|]]; cbn [fst snd] in *.
+    + intros N. rewrite IH by exact N. apply K. exact I.
+    + destruct (e =? 7); [intros _; apply K; exact I|intros N; rewrite IH by exact N; apply K; exact I].
+    + intros [].
 Qed.
 
 (* the statement used below: whenever require returns (a module or an error), the stack is exactly what it was *)
@@ -67,7 +71,7 @@ Lemma run_body_frozen rq m stmts x :
   forall g menv, In x (stack g) -> no_fuel (snd (run_body rq m stmts g menv)) -> frozen x g (fst (run_body rq m stmts g menv)).
 Proof.
   intros H. induction stmts as [|s r IH]; intros g menv Hx; [intros _; split; auto|].
-  destruct s as [y v|f m2| |]; cbn [run_body].
+  destruct s as [y v|f m2| | |f m2 x0]; cbn [run_body].
   - apply IH. exact Hx.
   - pose proof (H g m2 Hx) as K. destruct (rq g m2) as [g' [menv2|e|]]; cbn [fst snd] in *.
     + intros N. destruct (K I) as [[C D] S]. assert (Hx' : In x (stack g')) by (rewrite S; exact Hx).
@@ -76,6 +80,13 @@ Proof.
     + intros [].
   - intros _. split; auto.
   - intros N. apply (IH (mk_g (cache g) (stack g) (log g ++ [m]) (done g) (cells g)) menv Hx N).
+  - pose proof (H g m2 Hx) as K. destruct (rq g m2) as [g' [menv2|e|]]; cbn [fst snd] in *.
+    + intros N. destruct (K I) as [[C D] S]. assert (Hx' : In x (stack g')) by (rewrite S; exact Hx).
+      destruct (IH g' (put x0 (SInt 1) (bind f m2 menv2 menv)) Hx' N) as [A B]. split; auto.
+    + destruct (e =? 7); [intros _; apply (K I)|].
+      intros N. destruct (K I) as [[C D] S]. assert (Hx' : In x (stack g')) by (rewrite S; exact Hx).
+      destruct (IH g' (put x0 (SInt 0) menv) Hx' N) as [A B]. split; auto.
+    + intros [].
 Qed.
 
 Lemma req_frozen fuel p x : forall g m, In x (stack g) -> no_fuel (snd (req fuel p g m)) -> frozen x g (fst (req fuel p g m)).
@@ -106,7 +117,7 @@ Lemma run_body_once rq m stmts :
   forall g menv, once g -> no_fuel (snd (run_body rq m stmts g menv)) -> once (fst (run_body rq m stmts g menv)).
 Proof.
   intros H. induction stmts as [|s r IH]; intros g menv O; [intros _; exact O|].
-  destruct s as [y v|f m2| |]; cbn [run_body].
+  destruct s as [y v|f m2| | |f m2 x0]; cbn [run_body].
   - apply IH. exact O.
   - pose proof (H g m2 O) as K. destruct (rq g m2) as [g' [menv2|e|]]; cbn [fst snd] in *.
     + intros N. apply IH; [apply K; exact I|exact N].
@@ -114,6 +125,10 @@ Proof.
     + intros [].
   - intros _. exact O.
   - intros N. apply (IH (mk_g (cache g) (stack g) (log g ++ [m]) (done g) (cells g)) menv); [exact O|exact N].
+  - pose proof (H g m2 O) as K. destruct (rq g m2) as [g' [menv2|e|]]; cbn [fst snd] in *.
+    + intros N. apply IH; [apply K; exact I|exact N].
+    + destruct (e =? 7); [intros _; apply K; exact I|intros N; apply IH; [apply K; exact I|exact N]].
+    + intros [].
 Qed.
 
 Theorem req_once fuel p : forall g m, once g -> no_fuel (snd (req fuel p g m)) -> once (fst (req fuel p g m)).
